@@ -93,6 +93,10 @@ class FileBasedTapeCassette(TapeCassette):
             recording_id = file_name.split('.')[0]
             recording = self.get_recording(recording_id)
 
+            # The file name prefix is only a pre filter, other categories may start with the same text
+            if self.extract_recording_category(recording.id) != category:
+                continue
+
             if metadata:
                 # Filter based on metadata if provided
                 if not TapeCassette.match_against_recorded_metadata(metadata, recording.get_metadata()):
